@@ -405,4 +405,58 @@ class CopySuite(Suite):
         return None
 
 
-SUITES = [SshSuite(), CopySuite()]
+
+class CopyForeignSuite(Suite):
+    """copy() between two DIFFERENT machines of the same (or a derived) class: the same-host branch is taken by class, so
+    the only thing that keeps `cp` from running on the wrong machine is the host check of the target path -- it must
+    raise instead of copying somewhere else.  Oracle only."""
+    name = "copy_foreign"
+    model_fn = None
+
+    def gen(self, tier, rng):
+        for derived in (False, True):
+            for direction in ("ab", "ba"):
+                for clone in (False, True):
+                    yield {"derived": derived, "dir": direction, "clone": clone}
+
+    def run(self, case):
+        rec = Rec()
+        base = type("RecHostA", (_RecHost,), {"hid": 0, "name": "hostA"})
+        other_cls = type("RecHostB", (base,), {"hid": 1, "name": "hostB"}) if case["derived"] else base
+        a = base()
+        a.rec = rec
+        if case["clone"]:
+            b = a.clone()
+        else:
+            b = other_cls()
+            b.rec = rec
+        p1, p2 = (linux.Path(a, "/src/file"), linux.Path(b, "/dst/file")) if case["dir"] == "ab" else (linux.Path(b, "/src/file"), linux.Path(a, "/dst/file"))
+        try:
+            tcopy(p1, p2)
+        except tbot.error.WrongHostError:
+            return [3]
+        except NotImplementedError:
+            return [2]
+        except Exception as e:  # noqa
+            return [98, type(e).__name__ + ": " + str(e)[:80]]
+        ex = [c for c in rec.calls if c[0] == "exec0"]
+        return [0, [list(map(str, c[2])) for c in ex]]
+
+    def oracle(self, case, obs):
+        if case["clone"]:
+            return [] if obs[0] == 0 and len(obs[1]) == 1 and obs[1][0][0] == "cp" else [f"copy between a machine and its clone gave {obs!r}"]
+        if obs[0] in (2, 3):
+            return []
+        return [f"copy between two different machines ({'derived' if case['derived'] else 'same'} class) did not raise: {obs!r} (the file would be copied on one machine only)"]
+
+    def nontrivial(self, case, obs):
+        return not case["clone"]
+
+    def klass(self, case, obs):
+        return f"{'derived' if case['derived'] else 'same'}:{'clone' if case['clone'] else 'other'}"
+
+    def finding_key(self, case, obs, failure):
+        return None
+
+
+SUITES = [SshSuite(), CopySuite(), CopyForeignSuite()]
